@@ -22,28 +22,64 @@ Proof.
   - rewrite IH. reflexivity.
 Qed.
 
+Lemma accumulate_len w n x w' : accumulate w n x = Ok w' -> a_len w' = a_len w + n.
+Proof.
+  unfold accumulate. destruct x as [v|].
+  - destruct (pow63 <=? n); [discriminate|]. destruct (negb (in_i64b (v * Z.of_N n))); [discriminate|].
+    destruct (negb (in_i64b (a_total w + v)) || negb (in_i64b (a_total w + v * Z.of_N n))); [discriminate|].
+    destruct (pow64 <=? a_len w + n); [discriminate|].
+    destruct (a_len w =? 0); intros H; inversion H; reflexivity.
+  - destruct (pow64 <=? a_len w + n); [discriminate|].
+    destruct (a_len w =? 0); intros H; inversion H; reflexivity.
+Qed.
+
+Lemma accumulate_no_panic w n x : accumulate w n x <> Panic.
+Proof.
+  unfold accumulate. destruct x as [v|].
+  - destruct (pow63 <=? n); [discriminate|]. destruct (negb (in_i64b (v * Z.of_N n))); [discriminate|].
+    destruct (negb (in_i64b (a_total w + v)) || negb (in_i64b (a_total w + v * Z.of_N n))); [discriminate|].
+    destruct (pow64 <=? a_len w + n); [discriminate|]. destruct (a_len w =? 0); discriminate.
+  - destruct (pow64 <=? a_len w + n); [discriminate|]. destruct (a_len w =? 0); discriminate.
+Qed.
+
 Section DeltaP.
   Variable nullable : bool.
   Variable lo hi : Z.
 
+  Lemma dstep_cases c w ws s :
+    match dstep nullable (c, w, ws) s with
+    | Ok (c', _, _) => step Z Z.eqb nullable c s = Ok c'
+    | Err => True
+    | Panic => False
+    end.
+  Proof.
+    unfold dstep.
+    destruct (step_cases Z Z.eqb nullable c s) as [-> | [c1 ->]]; cbn [bind]; [exact I|].
+    destruct s as [n|v|n v|n]; cbn [seg_items].
+    - reflexivity.
+    - pose proof (accumulate_no_panic w 1 (Some v)) as Hn.
+      destruct (accumulate w 1 (Some v)) as [w'| |]; cbn [bind]; [|exact I|congruence].
+      destruct (c_segs Z c1 =? 0); reflexivity.
+    - pose proof (accumulate_no_panic w n (Some v)) as Hn.
+      destruct (accumulate w n (Some v)) as [w'| |]; cbn [bind]; [|exact I|congruence].
+      destruct (c_segs Z c1 =? 0); reflexivity.
+    - pose proof (accumulate_no_panic w n None) as Hn.
+      destruct (accumulate w n None) as [w'| |]; cbn [bind]; [|exact I|congruence].
+      destruct (c_segs Z c1 =? 0); reflexivity.
+  Qed.
+
   Lemma dcheck_check : forall ss c w ws,
     match dcheck nullable (c, w, ws) ss with
     | Ok (c', _, _) => check Z Z.eqb nullable c ss = Ok c'
-    | Panic => check Z Z.eqb nullable c ss = Panic
     | Err => True
+    | Panic => False
     end.
   Proof.
     induction ss as [|s t IH]; intros c w ws; [reflexivity|].
-    cbn [dcheck check]. unfold dstep.
-    destruct (step Z Z.eqb nullable c s) as [c1| |]; cbn [bind]; auto.
-    destruct s as [n|v|n v|n].
-    - cbn [bind]. apply IH.
-    - destruct (accumulate w (seg_items Z (RLit v)) (Some v)) as [w'|]; cbn [bind]; auto.
-      destruct (c_segs Z c1 =? 0); cbn [bind]; apply IH.
-    - destruct (accumulate w (seg_items Z (RRun n v)) (Some v)) as [w'|]; cbn [bind]; auto.
-      destruct (c_segs Z c1 =? 0); cbn [bind]; apply IH.
-    - destruct (accumulate w n None) as [w'|]; cbn [bind]; auto.
-      destruct (c_segs Z c1 =? 0); cbn [bind]; apply IH.
+    cbn [dcheck check].
+    pose proof (dstep_cases c w ws s) as Hs.
+    destruct (dstep nullable (c, w, ws) s) as [[[c1 w1] ws1]| |]; cbn [bind]; [|exact I|exact Hs].
+    rewrite Hs. cbn [bind]. apply IH.
   Qed.
 
   (* whatever the delta loader accepts, the i64 RLE loader accepts, with the same runs *)
@@ -58,16 +94,14 @@ Section DeltaP.
     destruct (domain_ok lo hi 0 _); [auto|discriminate].
   Qed.
 
-  Theorem delta_load_panic_rle b : delta_load nullable lo hi b = Panic -> i64_load nullable b = Panic.
+  Theorem delta_load_no_panic b : delta_load nullable lo hi b <> Panic.
   Proof.
-    unfold delta_load, i64_load, rle_load, delta_load_segs, rle_load_segs.
+    unfold delta_load, delta_load_segs.
     destruct (raw_parse Z i64_dec (S (length b)) 0 b) as [ss t].
     pose proof (dcheck_check ss (cst_init Z) agg0 []) as H.
-    destruct (dcheck nullable (cst_init Z, agg0, []) ss) as [[[c w] ws]| |]; cbn [bind]; try discriminate.
-    - rewrite H. cbn [bind]. destruct t; try discriminate; auto.
-      unfold dfinish. destruct (finish Z c) as [rs'| |]; cbn [bind]; try discriminate; auto.
-      destruct (domain_ok lo hi 0 _); discriminate.
-    - rewrite H. auto.
+    destruct (dcheck nullable (cst_init Z, agg0, []) ss) as [[[c w] ws]| |]; cbn [bind]; [|discriminate|contradiction].
+    destruct t; [|discriminate]. unfold dfinish, finish.
+    destruct (u64_max <=? _); cbn [bind]; [discriminate|]. destruct (domain_ok lo hi 0 _); discriminate.
   Qed.
 
   (* a delta column that loads saves back to bytes that load to the same delta column *)
